@@ -330,6 +330,20 @@ def history_write_after_edit(fmt, W, m, spec, workdir):
         m.ctcs[0].name = "renamed-after-first-write"
         es["ctcs"][0]["name"] = "renamed-after-first-write"
         edited = True
+    ast_edit = None
+    logical_ctcs = [k for k, c in enumerate(spec.get("ctcs", [])) if isinstance(c["ast"], list) and S.is_logical_ast(c["ast"])
+                    and len(S.ast_names(c["ast"])) <= 12]
+    if logical_ctcs:
+        # an expression tree edited in place (node attributes assigned directly, no setter, same AST object)
+        import random as _random
+        rr = _random.Random(S.digest(spec))
+        k = rr.choice(logical_ctcs)
+        allowed = tuple(o for o in ("AND", "OR", "IMPLIES") if True)
+        newast = S.inplace_edit_ast(m.ctcs[k].ast, spec["ctcs"][k]["ast"], rr, S.feature_names(spec), allowed)
+        if newast is not None:
+            es["ctcs"][k]["ast"] = newast
+            ast_edit = k
+            edited = True
     if not edited:
         return None
     try:
@@ -353,6 +367,10 @@ def history_write_after_edit(fmt, W, m, spec, workdir):
                 fmt.ctc_names and [c["name"] for c in o["ctcs"]] != [c["name"] for c in e["ctcs"]]):
             return ("write-after-in-place-edit", "stale-output", "the document written after an in-place edit does not "
                     "contain the edit: " + diff_symptom(fmt, e["root"], o["root"]))
+        if ast_edit is not None and (len(o["ctcs"]) != len(e["ctcs"]) or
+                                     S.equivalent(e["ctcs"][ast_edit]["ast"], o["ctcs"][ast_edit]["ast"]) is not True):
+            return ("write-after-in-place-edit", "stale-constraint", "the document written after an in-place edit of an "
+                    f"expression tree does not contain the edited constraint {e['ctcs'][ast_edit]['ast']}")
     except Exception as ex:  # noqa: BLE001
         return ("write-after-in-place-edit", f"raises:{type(ex).__name__}@reader", str(ex)[:200])
     # restore the original state on the live object (cycles continue with it)
@@ -365,6 +383,9 @@ def history_write_after_edit(fmt, W, m, spec, workdir):
                 a.default_value = sa["value"]
     for c, sc in zip(m.ctcs, spec.get("ctcs", [])):
         c.name = sc["name"]
+    if ast_edit is not None:
+        from flamapy.core.models.ast import AST
+        m.ctcs[ast_edit].ast = AST(S.build_ast(spec["ctcs"][ast_edit]["ast"]))
     return None
 
 
